@@ -80,6 +80,16 @@ class Facts:
         m = self.methods(impl_self, name, trait_suffix)
         return m[0] if len(m) == 1 else None
 
+    def adt_freeze(self, adt_path):
+        """True if the type cannot contain interior mutability: rustc's Freeze answer, or (for generic fields, where
+        Freeze is unknown) every non-Freeze field is Copy - UnsafeCell is not Copy, so a Copy type is Freeze"""
+        a = self.adts.get(adt_path)
+        if a is None:
+            return None
+        if a['freeze']:
+            return True
+        return all(f['freeze'] or f.get('copy') for v in a['variants'] for f in v['fields'])
+
     def closures_of(self, path):
         return self._closures.get(path, [])
 
